@@ -122,13 +122,13 @@ func init() {
 	register(&propertySpec{
 		ID:      "C09",
 		Explain: "Static rules for isolation between locations: the ancestor walk is bounded (visited set), storage calls use the state's own namespace, the shared cron keys jobs by location, and the set of written package-level variables is frozen. Does not decide non-interference of results, that exactly the transitive parents' facts are seen, or immediacy of parent changes.",
-		Rules:   []ruleFn{ruleTerm("C09"), ruleAncSelfLast, ruleAncPath, ruleAncRestore, ruleNsArg, ruleCronKey("C09"), ruleGlobals, ruleParentsValue("C09"), ruleCopyEmpty("C09")},
+		Rules:   []ruleFn{ruleTerm("C09"), ruleAncSelfLast, ruleAncPath, ruleAncRestore, ruleNsArg, ruleCronKey("C09"), ruleGlobals, ruleParentsValue("C09"), ruleCopyEmpty("C09"), ruleAncOnce("C09")},
 	})
 }
 
 // ANC-SELF-LAST: the ancestor walk applies the callback to the location itself after all its ancestors.
 func ruleAncSelfLast(w *World, r *Report) {
-	r.Rule("ANC-SELF-LAST", "the ancestor walk applies its callback to the starting location itself after every ancestor (no recursive call is reachable after the callback was applied to the receiver, and every success return lies behind that application): the per-location search functions re-point the request context at the location they visit, so the location that received the request must be visited last for its actions to run in its own context", 1)
+	r.Rule("ANC-SELF-LAST", "the ancestor walk applies its callback to the starting location itself after every ancestor (no recursive call is reachable after the callback was applied to the receiver, and every success return lies behind that application — except the silent skip of a location the walk has visited already, see ANC-ONCE): the per-location search functions re-point the request context at the location they visit, so the location that received the request must be visited last for its actions to run in its own context", 1)
 	var walk *ssa.Function
 	for _, name := range []string{"doAncestors", "DoAncestors"} {
 		if f := w.TryMethod("core", "Location", name); f != nil {
@@ -188,7 +188,8 @@ func ruleAncSelfLast(w *World, r *Report) {
 			return
 		}
 	}
-	if h, _ := reachPSA(walk, nil, isSuccessReturn, isSelfCall, nil); h != nil {
+	// a location that the visited set (ANC-ONCE) says was visited already is skipped silently: those edges are not walked
+	if h, _ := reachPSA(walk, nil, isSuccessReturn, isSelfCall, edgeFilterOf(ancVisitedEdges(walk))); h != nil {
 		// a success return that never visited the location itself: only legitimate when nothing was visited at all
 		r.violation("ANC-SELF-LAST", key, w.PosOf(h), "the walk can succeed without applying the callback to the location itself")
 		return
